@@ -24,6 +24,7 @@ def extra_lines(rng, tier):
                       thr=0, amt=None, auto=True)
         second = rng.choice(["UPD C:u1", "UPD UQ:u1:%d" % rng.choice([1, 2, q]), "UPD C:u1;UPD UQ:u1:3"])
         out.append("w%d|100|ADD %s|MATCH %d u9000#%s|r%d|drain,mode=O,proj=map+tk" % (i, o, m, second, rng.randint(1, 10 ** 9)))
+    out += conc.long_past_lines(rng, 12 if tier == "quick" else 150, "drain,mode=O,proj=map+tk")
     return out
 
 
